@@ -58,6 +58,9 @@ type TraditionalDnsConn struct {
 	nextQid       uint16
 	queue         map[uint32]chan *[]byte // uint32 has fast path
 
+	// ddlMu serializes the read deadline updates of exchange() and readLoop().
+	ddlMu sync.Mutex
+
 	// waitingResp indicates connection is waiting a reply from the peer.
 	// It can identify c is dead or buggy in some circumstances. e.g. Network is dropped
 	// and the sockets were still open because no fin or rst was received.
@@ -126,13 +129,13 @@ func (dc *TraditionalDnsConn) exchange(ctx context.Context, q []byte, reserved b
 	// If a query was sent, server should have a reply (even not for this query) in a short time.
 	// This indicates the connection is healthy. Otherwise, this connection might be dead.
 	// The Read deadline will be refreshed in DnsConn.readLoop() after every successful read.
-	// Note: There has a race condition in this SetReadDeadline() call and the one in
-	// readLoop(). It's not a big problem.
 	verifhook.PointArg("tdc.exchange.written", dc.c)
+	dc.ddlMu.Lock()
 	if dc.waitingResp.CompareAndSwap(false, true) {
 		verifhook.PointArg("tdc.exchange.arming", dc.c)
 		dc.c.SetReadDeadline(time.Now().Add(waitingReplyTimeout))
 	}
+	dc.ddlMu.Unlock()
 
 	var resend <-chan time.Time
 	if !dc.isTcp {
@@ -198,8 +201,9 @@ func (dc *TraditionalDnsConn) readResp() (payload *[]byte, err error) {
 // readLoop reads DnsConn until there was a read error.
 func (dc *TraditionalDnsConn) readLoop() {
 
+	answered := -1 // wire id of the reply dispatched in the previous iteration
 	for {
-		dc.c.SetReadDeadline(time.Now().Add(dc.idleTimeout))
+		dc.setReadLoopDeadline(answered)
 		r, err := dc.readResp()
 		if err != nil {
 			dc.CloseWithErr(fmt.Errorf("read err, %w", err)) // abort this connection.
@@ -209,6 +213,7 @@ func (dc *TraditionalDnsConn) readLoop() {
 		verifhook.PointArg("tdc.readloop.read", dc.c)
 
 		rid := binary.BigEndian.Uint16(*r)
+		answered = int(rid)
 		resChan := dc.getQueueC(rid)
 		if resChan != nil {
 			select {
@@ -220,6 +225,31 @@ func (dc *TraditionalDnsConn) readLoop() {
 			pool.ReleaseBuf(r)
 		}
 		verifhook.PointArg("tdc.readloop.dispatched", dc.c)
+	}
+}
+
+// setReadLoopDeadline arms the read deadline for the next read of readLoop.
+// While queries are still waiting for their replies the peer has
+// waitingReplyTimeout to send something (a silent peer must not keep them
+// waiting for the whole idle timeout); otherwise the connection may idle for
+// idleTimeout. answered is the wire id of the reply that was just dispatched
+// (its waiter may not have left the queue yet and must not count), or -1.
+func (dc *TraditionalDnsConn) setReadLoopDeadline(answered int) {
+	dc.ddlMu.Lock()
+	defer dc.ddlMu.Unlock()
+	dc.queueMu.RLock()
+	pending := len(dc.queue)
+	if answered >= 0 {
+		if _, ok := dc.queue[uint32(answered)]; ok {
+			pending--
+		}
+	}
+	dc.queueMu.RUnlock()
+	if pending > 0 {
+		dc.waitingResp.Store(true)
+		dc.c.SetReadDeadline(time.Now().Add(waitingReplyTimeout))
+	} else {
+		dc.c.SetReadDeadline(time.Now().Add(dc.idleTimeout))
 	}
 }
 
